@@ -10,7 +10,7 @@
 (*    1..n+1  x  EVERY topological order of the nodes the targets need     *)
 (*    (modelx takes whatever networkx.topological_sort returns)            *)
 (*    [x every set of input nodes, targets included, when WithInputs].     *)
-(* One action per step of the code:                                        *)
+(* One action per step of the code (Setup only completes the case):        *)
 (*    GenTrace      model.py:596-606  evaluate one target under trace_stack*)
 (*                                    and collect the ENTERed nodes        *)
 (*    GenPlan       model.py:608-609  get_calcsteps (Plan)                 *)
@@ -28,7 +28,7 @@ CONSTANTS MaxN,        \* largest number of nodes
           WithInputs,  \* TRUE: also every set of input nodes (a target may be an input)
           Dump         \* TRUE: print every case once (spec -> code), explore nothing
 
-VARIABLES n, deps, inv0, T, step, ord,     \* the case (never change)
+VARIABLES n, deps, inv0, T, step, ord,     \* the case (fixed once Setup has run)
           pc,          \* "setup" | "gen_trace" | "gen_plan" | "gen_clear" | "exec" | "done"
           cache,       \* the abstract cache
           todo,        \* targets still to trace / traced nodes still to clear
